@@ -1069,6 +1069,30 @@ func (e *env) runCase(c caseSpec) {
 		}
 		e.runPair(c, res, expected, m)
 	}
+	// the same cache entry restored for a target that now declares the path as its bin_output (the output
+	// definition "file::<path>" and the change hash are the same): a restored binary output is runnable
+	if len(c.Outs) == 1 && c.Outs[0].Type == "file" && !c.Outs[0].Bin && c.Outs[0].File != nil && !c.Outs[0].File.X {
+		c2 := c
+		c2.Family = "bin-redeclared"
+		o := c.Outs[0]
+		o.Bin = true
+		c2.Outs = []outSpec{o}
+		expected2 := listing{}
+		for k, v := range expected {
+			if k == o.Path && strings.HasPrefix(v, "f|-|") {
+				v = "f|x|" + strings.TrimPrefix(v, "f|-|")
+			}
+			expected2[k] = v
+		}
+		e.clean = false
+		for _, m := range mutationsFor(c2) {
+			if hangs >= maxHangs {
+				return
+			}
+			e.runPair(c2, res, expected2, m)
+		}
+		e.clean = false
+	}
 }
 
 // ---------------------------------------------------------------- families
